@@ -6,9 +6,11 @@ CONSTANTS Fams, Full, Seed
 FamSeq == SetToSeq(Fams)
 CasesOf(fam) == LET sh == SetToSeq(FamShapes(fam, Full, Seed)) IN [i \in 1 .. Len(sh) |-> FamBuild(fam, Full, Seed, sh[i])]
 Cases == Concat([k \in 1 .. Len(FamSeq) |-> CasesOf(FamSeq[k])])
-ASSUME \A i \in 1 .. Len(Cases) : ValidFile(Cases[i].file)          \* the space stays inside C01's quantifier
-ASSUME ndJsonSerialize(IOEnv.OUT, Cases)
-ASSUME PrintT(<<"GENERATED", Fams, Len(Cases)>>)
+\* (cs is bound once: TLC would rebuild a defined sequence at every reference)
+ASSUME \E cs \in {Cases} :
+          /\ \A i \in 1 .. Len(cs) : ValidFile(cs[i].file)          \* the space stays inside C01's quantifier
+          /\ ndJsonSerialize(IOEnv.OUT, cs)
+          /\ PrintT(<<"GENERATED", Fams, Len(cs)>>)
 VARIABLE v
 GInit == v = 0
 GNext == UNCHANGED v
